@@ -629,10 +629,36 @@ func (ie IndexExpression) PrettyPrint(out *PrintState) *PrintState {
 	if needParen {
 		out.Print("(")
 	}
+	isDot := ie.Token.Type() == token.DOT
+	// 1.x would be read as the float `1.` followed by x.
+	_, leftIsInt := ie.Left.(*IntegerLiteral)
+	if isDot && leftIsInt {
+		out.Print("(")
+	}
 	ie.Left.PrettyPrint(out)
+	if isDot && leftIsInt {
+		out.Print(")")
+	}
 	out.Print(ie.Literal())
 	out.ExpressionPrecedence = LOWEST
+	// a.(b+c) or a.(1) aren't a.b+c nor a.1: only names and strings can directly follow the dot.
+	indexParen := false
+	if isDot {
+		switch idx := ie.Index.(type) {
+		case *Identifier:
+			indexParen = idx.Type() != token.IDENT // a.(..) isn't a...
+		case *StringLiteral, *PostfixExpression: // (m.v++ is m.(v++))
+		default:
+			indexParen = true
+		}
+	}
+	if indexParen {
+		out.Print("(")
+	}
 	ie.Index.PrettyPrint(out)
+	if indexParen {
+		out.Print(")")
+	}
 	if ie.Token.Type() == token.LBRACKET {
 		out.Print("]")
 	}
